@@ -82,6 +82,9 @@ def emptiness(test, x_pred):
         return {'empty': 'nonempty', 'nonempty': 'empty'}.get(r)
     if x_pred(test):
         return 'nonempty'
+    if isinstance(test, ast.Call) and isinstance(test.func, ast.Name) and test.func.id == 'bool' and \
+            len(test.args) == 1 and not test.keywords:
+        return emptiness(test.args[0], x_pred)      # bool(X): truthiness spelled out
     try:
         s = value_set(test, is_len_of(x_pred), domain=tuple(range(0, 6)))
     except NotSimple:
